@@ -41,6 +41,7 @@ fn plan(prop: &'static str, proj: Proj, max_len: usize, max_dev: usize) -> Plan 
         dev_positions: 3,
         ctors: vec![CTOR_NEW_WITH_STATE],
         check_probe_neutral: true,
+        sweep_all: false,
     }
 }
 
@@ -377,6 +378,57 @@ pub fn errors_family() -> Vec<Spec> {
     out
 }
 
+/// Stress shapes for macro expansion (C12).
+pub fn stress_family() -> Vec<Spec> {
+    let mut out = vec![];
+    // chains C^n for a class mixing a character and a range (each link is a state with two
+    // incoming arms; the code generator inlines single-predecessor states)
+    let c = set(&[('_', '_'), ('a', 'z')]);
+    for n in 1..=14usize {
+        let mut r = c.clone();
+        for _ in 1..n {
+            r = cat(r, c.clone());
+        }
+        let mut s = Spec::single(vec![ret(r), ret(Re::Any)], if n <= 8 { "chain" } else { "chain_long" });
+        s.lets = vec![];
+        out.push(s);
+    }
+    // the same through a variable
+    for n in [3usize, 6] {
+        let mut r = var("c");
+        for _ in 1..n {
+            r = cat(r, var("c"));
+        }
+        let mut s = Spec::single(vec![ret(r), ret(Re::Any)], "chain");
+        s.lets = vec![("c".to_string(), c.clone())];
+        out.push(s);
+    }
+    // built-ins in every position
+    let b = |n: &str| builtin(n);
+    out.push(Spec::single(vec![ret(cat(b("XID_Start"), star(b("XID_Continue")))), ret(plus(b("numeric"))), rule(plus(b("whitespace")), Kind::Skip), ret(Re::Any)], "builtins"));
+    out.push(Spec::single(vec![ret(alt(plus(b("uppercase")), cat(b("lowercase"), opt(b("numeric"))))), ret(diff(b("alphanumeric"), b("alphabetic"))), ret(Re::Any)], "builtins"));
+    out.push(Spec::single(vec![Rule { re: plus(b("alphabetic")), ctx: Some(alt(b("whitespace"), Re::Eoi)), kind: Kind::Act(D_RETURN) }, ret(plus(b("alphanumeric"))), ret(Re::Any)], "builtins"));
+    out.push(Spec::multi(vec![vec![rule(plus(b("alphabetic")), Kind::Act(d_switch_return(1))), ret(Re::Any)], vec![rule(plus(b("numeric")), Kind::Act(d_switch_return(0))), ret(b("alphabetic"))]], "builtins"));
+    // bracket sets that repeat a character / overlap
+    out.push(Spec::single(vec![ret(set(&[('a', 'a'), ('a', 'a')])), ret(set(&[('b', 'd'), ('c', 'c'), ('b', 'b'), ('c', 'e')]))], "repeat"));
+    out.push(Spec::single(vec![ret(plus(set(&[('a', 'c'), ('a', 'a'), ('c', 'c'), ('a', 'c')]))), ret(ch('x'))], "repeat"));
+    // a 30-rule definition: keywords against an identifier rule, operators, numbers, comments
+    let kws = ["ab", "abc", "abca", "ac", "acb", "b", "ba", "bab", "bb", "bc", "bca", "c", "ca", "cab", "cb", "cc", "aab", "aabb", "abab", "abba"];
+    let mut rules: Vec<Rule> = kws.iter().map(|k| ret(st(k))).collect();
+    rules.push(ret(plus(set(&[('a', 'c')]))));
+    rules.push(ret(cat(ch('x'), plus(set(&[('a', 'c')])))));
+    rules.push(ret(cat(st("xx"), star(diff(Re::Any, ch('x'))))));
+    rules.push(rule(plus(ch('x')), Kind::Skip));
+    rules.push(Rule { re: st("abc"), ctx: Some(ch('x')), kind: Kind::Act(D_RETURN) });
+    rules.push(ret(cat(plus(ch('a')), cat(opt(ch('b')), plus(ch('c'))))));
+    rules.push(ret(cat(st("ca"), alt(st("bb"), st("cc")))));
+    rules.push(ret(cat(ch('b'), cat(Re::Any, ch('b')))));
+    rules.push(ret(cat(set(&[('a', 'b')]), cat(set(&[('b', 'c')]), set(&[('a', 'a'), ('c', 'c')])))));
+    rules.push(ret(Re::Any));
+    out.push(Spec::single(rules, "thirty"));
+    out
+}
+
 fn with<F: FnOnce(&mut Plan)>(mut p: Plan, f: F) -> Plan {
     f(&mut p);
     p
@@ -481,6 +533,129 @@ pub fn groups(prop: &str, tier: &str) -> Vec<Group> {
             specs.extend(errors_family().into_iter().step_by(if q { 17 } else { 5 }));
             let mut p = plan("C15", Proj::Clones, if q { 4 } else { 5 }, if q { 0 } else { 1 });
             p.check_probe_neutral = false;
+            vec![Group { plan: p, specs }]
+        }
+        "C13" => {
+            // three generated membership-test shapes per built-in: per-range arms (`$$n`), guard
+            // chain / binary-search table (`$$n 'x'`), table inside a right-context function
+            let mut specs = vec![];
+            let simple = |re: Re| Spec::single(vec![rule(re, Kind::Simple)], "builtin");
+            for n in crate::builtins::builtin_names() {
+                specs.push(simple(builtin(n)));
+                specs.push(simple(cat(builtin(n), ch('x'))));
+                specs.push(Spec::single(vec![Rule { re: ch('a'), ctx: Some(builtin(n)), kind: Kind::Simple }], "builtin_ctx"));
+            }
+            for (a, b) in [("alphabetic", "numeric"), ("lowercase", "uppercase"), ("XID_Continue", "XID_Start"), ("ascii_graphic", "ascii_alphanumeric")] {
+                specs.push(simple(cat(alt(builtin(a), builtin(b)), ch('x'))));
+                specs.push(simple(cat(diff(builtin(a), builtin(b)), ch('x'))));
+                specs.push(simple(diff(builtin(b), builtin(a))));
+            }
+            specs.push(simple(cat(diff(builtin("alphabetic"), set(&[('a', 'z')])), ch('x'))));
+            specs.push(simple(cat(diff(Re::Any, builtin("alphanumeric")), ch('x'))));
+            // small classes padded with disjoint singletons to force a table
+            specs.push(simple(cat(set(&[('0', '9'), ('b', 'b'), ('d', 'd'), ('f', 'f'), ('h', 'h'), ('j', 'j'), ('l', 'l'), ('n', 'n'), ('p', 'p'), ('r', 'r'), ('t', 't')]), ch('x'))));
+            let mut p = plan("C13", Proj::ClassSweep, 0, 0);
+            p.sweep_all = true;
+            p.check_probe_neutral = false;
+            let _ = q;
+            vec![Group { plan: p, specs }]
+        }
+        "C12" => {
+            // dedicated shapes for "the output compiles": right contexts of every shape, sets that
+            // repeat a character, built-ins in every position, many rules, chains, several rule sets
+            let mut specs: Vec<Spec> = ctx_family(!q).into_iter().step_by(if q { 4 } else { 1 }).collect();
+            specs.extend(stress_family().into_iter().filter(|s| s.family != "chain_long"));
+            specs.extend(sets_family(5, &[2, 4], true).into_iter().step_by(if q { 7 } else { 2 }));
+            specs.extend(eoi_family().into_iter().step_by(if q { 9 } else { 3 }));
+            specs.extend(kinds_family(false).into_iter().step_by(if q { 13 } else { 3 }));
+            let mut p = plan("C12", Proj::Full, if q { 3 } else { 4 }, 0);
+            p.check_probe_neutral = false;
+            vec![Group { plan: p, specs }]
+        }
+        "C16" => {
+            // scoping (lives in lib.rs) and "`$var` stands for its regex as a unit"
+            let mut specs = vec![];
+            let lets = |v: &[(&str, Re)]| -> Vec<(String, Re)> { v.iter().map(|(n, r)| (n.to_string(), r.clone())).collect() };
+            // a variable is a unit under every operator
+            let bodies = [alt(ch('a'), ch('b')), cat(ch('a'), ch('b')), set(&[('a', 'c')]), plus(ch('a')), cat(ch('a'), opt(ch('b')))];
+            for (bi, b) in bodies.iter().enumerate() {
+                let class_like = bi == 0 || bi == 2;
+                let mut uses = vec![cat(var("v"), ch('c')), cat(ch('c'), var("v")), star(var("v")), plus(var("v")), alt(ch('c'), var("v")), cat(var("v"), var("v")), opt(cat(var("v"), ch('c')))];
+                if class_like {
+                    uses.push(diff(var("v"), ch('b')));
+                    uses.push(diff(set(&[('a', 'c')]), var("v")));
+                }
+                for u in uses {
+                    if u.subst(&[("v".to_string(), b.clone())].into_iter().collect()).nullable_syn() {
+                        // a rule must not match the empty string: keep it non-nullable
+                        let mut s = Spec::single(vec![ret(cat(u, ch('x'))), ret(set(&[('a', 'c')]))], "let_unit");
+                        s.lets = lets(&[("v", b.clone())]);
+                        specs.push(s);
+                    } else {
+                        let mut s = Spec::single(vec![ret(u), ret(set(&[('a', 'c')]))], "let_unit");
+                        s.lets = lets(&[("v", b.clone())]);
+                        specs.push(s);
+                    }
+                }
+            }
+            // a let that refers to an earlier let; variables in right contexts
+            let mut s = Spec::single(vec![ret(cat(var("w"), ch('c'))), Rule { re: var("d"), ctx: Some(var("w")), kind: Kind::Act(D_RETURN) }, ret(set(&[('a', 'c')]))], "let_chain");
+            s.lets = lets(&[("d", set(&[('a', 'b')])), ("w", plus(var("d")))]);
+            specs.push(s);
+            // top-level lets are visible in every later rule set; rule-set lets only there, and the
+            // same local name may be bound differently in two rule sets
+            let mk = |k0: Re, k1: Re, k2: Option<Re>| -> Spec {
+                let mut sets = vec![
+                    RuleSet { lets: lets(&[("k", k0)]), rules: vec![rule(cat(var("k"), var("t")), Kind::Act(d_switch_return(1))), ret(var("k")), ret(var("t"))] },
+                    RuleSet { lets: lets(&[("k", k1)]), rules: vec![rule(plus(var("k")), Kind::Act(d_switch_return(0))), ret(var("t"))] },
+                ];
+                if let Some(k2) = k2 {
+                    sets[1].rules[0].kind = Kind::Act(d_switch_return(2));
+                    sets.push(RuleSet { lets: lets(&[("j", k2)]), rules: vec![rule(cat(var("j"), opt(var("t"))), Kind::Act(d_switch_return(0))), ret(ch('a'))] });
+                }
+                Spec { lets: lets(&[("t", ch('c'))]), sets, named: true, decl_order: vec![], family: "let_scope" }
+            };
+            specs.push(mk(ch('a'), ch('b'), None));
+            specs.push(mk(st("ab"), ch('a'), None));
+            specs.push(mk(ch('a'), st("ab"), Some(set(&[('a', 'b')]))));
+            specs.push(mk(set(&[('a', 'b')]), alt(ch('a'), st("bc")), Some(st("ba"))));
+            vec![Group { plan: plan("C16", Proj::Full, if q { 5 } else { 6 }, 1), specs }]
+        }
+        "C11" => {
+            let mut specs = vec![];
+            let d = |a: char, b: char| set(&[(a, b)]);
+            let classes: Vec<Re> = vec![
+                diff(set(&[('0', '5'), ('7', '9')]), d('0', '8')),
+                diff(Re::Any, d('\u{0}', '\u{D7FF}')),
+                diff(Re::Any, d('\u{E000}', '\u{10FFFF}')),
+                diff(d('\u{D000}', '\u{F000}'), d('\u{D000}', '\u{D7FF}')),
+                alt(d('\u{D7FC}', '\u{D7FF}'), d('\u{D7FE}', '\u{E001}')),
+                diff(diff(Re::Any, d('b', 'y')), ch('a')),
+                diff(diff(d('a', 'z'), d('c', 'e')), d('d', 'x')),
+                diff(builtin("alphabetic"), d('a', 'z')),
+                diff(alt(builtin("ascii_digit"), d('a', 'f')), ch('c')),
+                set(&[('a', 'a'), ('a', 'a')]),
+                set(&[('a', 'c'), ('b', 'b'), ('b', 'd'), ('a', 'a')]),
+                alt(d('a', 'c'), alt(ch('b'), d('b', 'e'))),
+                diff(d('a', 'e'), d('a', 'c')),
+                diff(d('a', 'e'), d('c', 'e')),
+                diff(set(&[('a', 'b'), ('d', 'e'), ('g', 'h')]), d('b', 'g')),
+                diff(set(&[('a', 'b'), ('d', 'e'), ('g', 'h')]), d('d', 'e')),
+                diff(set(&[('a', 'b'), ('d', 'e'), ('g', 'h')]), set(&[('a', 'a'), ('e', 'e'), ('g', 'h')])),
+                diff(d('\u{10FFF0}', '\u{10FFFF}'), d('\u{10FFF8}', '\u{10FFFE}')),
+                diff(d('\u{0}', '\u{10}'), alt(ch('\u{0}'), d('\u{5}', '\u{10}'))),
+                alt(diff(Re::Any, d('\u{1}', '\u{10FFFE}')), ch('m')),
+            ];
+            for c in classes {
+                specs.push(Spec::single(vec![rule(c.clone(), Kind::Simple)], "class"));
+                specs.push(Spec::single(vec![rule(cat(c.clone(), ch('x')), Kind::Simple)], "class_then"));
+                if !q {
+                    specs.push(Spec::single(vec![Rule { re: ch('a'), ctx: Some(c), kind: Kind::Simple }], "class_ctx"));
+                }
+            }
+            let mut p = plan("C11", Proj::ClassSweep, 0, 0);
+            p.check_probe_neutral = false;
+            p.sweep_all = !q;
             vec![Group { plan: p, specs }]
         }
         _ => vec![],
@@ -611,6 +786,7 @@ pub fn p_family(name: &str) -> Option<PFamily> {
             }
         }
         "regress" => from_vec(regress_single()),
+        "stress" => from_vec(stress_family()),
         _ => return None,
     })
 }
